@@ -79,17 +79,17 @@ Fixpoint sx_of_pv (v : pv) : sx :=
   end.
 
 (** exception classes are exchanged as numbers: 0 ConfigurationError, 1 KeyError, 2 AttributeError, 3 TypeError,
-    4 ValueError, 5 socket.gaierror, 6 message.InvalidSyntax, 7 anything else *)
+    4 ValueError, 5 socket.gaierror, 6 message.InvalidSyntax, 8 cryptography UnsupportedAlgorithm, 7 anything else *)
 Definition exc_code (e : exc) : Z :=
   match e with
   | ConfigurationError => 0 | KeyError => 1 | AttributeError => 2 | TypeError => 3 | ValueError => 4
-  | GaiError => 5 | InvalidSyntax => 6 | OtherError => 7
+  | GaiError => 5 | InvalidSyntax => 6 | OtherError => 7 | UnsupportedAlgorithm => 8
   end.
 
 Definition exc_of_code (z : Z) : exc :=
   if Z.eqb z 0 then ConfigurationError else if Z.eqb z 1 then KeyError else if Z.eqb z 2 then AttributeError
   else if Z.eqb z 3 then TypeError else if Z.eqb z 4 then ValueError else if Z.eqb z 5 then GaiError
-  else if Z.eqb z 6 then InvalidSyntax else OtherError.
+  else if Z.eqb z 6 then InvalidSyntax else if Z.eqb z 8 then UnsupportedAlgorithm else OtherError.
 
 Definition sx_addr (a : address) : sx := SxL [SxZ (fst a); SxZ (snd a)].
 Definition sx_transform (t : transform) : sx := SxL [SxZ (t_type t); SxZ (t_id t); sx_opt SxZ (t_keylen t)].
